@@ -88,6 +88,13 @@ TraceNext ==
   \/ /\ l <= Len(Rec)
      /\ LET ev == Rec[l] IN
           IF ev.a = "reset" THEN run' = ev.run /\ pre' = [k \in {} |-> 0]
+          ELSE IF ev.a = "mass" THEN     \* n keys with the same deadline, the clock jumps, one persistent key stays
+               /\ run' = run /\ pre' = pre
+               /\ LET due == ev.jump >= ev.ttl
+                      want == IF due THEN 1 ELSE ev.n + 1 IN
+                  (("panic" \in DOMAIN ev \/ ev.dbsize # want \/ (due /\ ev.alive # 0) \/ ev.persistent # 0 \/ ev.later # 1 \/ ev.held > want) =>
+                     PrintT(<<"VERDICT", ToJson([run |-> run, l |-> l, v |-> "bad", op |-> "SET PX",
+                                                 what |-> "after many deadlines passed at once, keys are still visible, have lost their deadline, or are still held"])>>))
           ELSE IF ev.a = "scanall" THEN
                /\ run' = run /\ pre' = pre
                /\ (RangeQ(ev.returned) # RangeQ(ev.keys) =>
